@@ -1150,7 +1150,8 @@ impl<'a> Engine<'a> {
                             self.h.viol("C09", "count", format!("{}: count() after {} of {} items = {}", kname, j, len, cnt));
                         }
                         // clone_from: an iterator at another position, overwritten in place, continues like its source
-                        let adv = (j * 7 + len + 1) % (len + 1);
+                        let adv = (j + 1 + (j * 5) % len.max(1)) % (len + 1); // a different position whenever len > 0 allows
+                        let adv = if adv == j { (j + 1) % (len + 1) } else { adv };
                         let mut c = $mk;
                         for _ in 0..adv {
                             c.next();
@@ -1998,6 +1999,51 @@ impl<'a> Engine<'a> {
     }
 }
 
+/// C19: maps whose VALUE type is zero-sized (`Map<u32, (), N>`, `Map<Z, (), N>`) must still render as
+/// maps (`key: ()` entries), in the plain and the alternate form.
+pub fn unit_value_fmt_probe(cx: &mut Ctx, hist: u64) {
+    use support::elems::Z;
+    ledger::set_ctx(hist, 0, "fmt(unit-valued map)");
+    let mut rng = cx.hist_rng(hist ^ 0x5EED_F00D);
+    let n = rng.usize_below(5);
+    let mut m: Map<u32, (), 4> = Map::new();
+    for i in 0..n {
+        m.insert(10 + (rng.below(6) as u32) + i as u32 * 10, ());
+    }
+    if n > 1 && rng.chance(1, 2) {
+        let k = *m.keys().next().unwrap();
+        m.remove(&k);
+    }
+    let refs: Vec<(&u32, &())> = m.iter().collect();
+    for alt in [false, true] {
+        cx.rep.evaluations += 1;
+        let got = if alt { format!("{:#?}", m) } else { format!("{:?}", m) };
+        let want = if alt { format!("{:#?}", StdMap(&refs)) } else { format!("{:?}", StdMap(&refs)) };
+        let ents: Vec<(String, String)> = refs.iter().map(|(k, _)| (format!("{:?}", k), "()".to_string())).collect();
+        let want2 = expect_map_debug(&ents, alt);
+        if got != want || got != want2 {
+            ledger::violation("C19", "map-debug@fmt(unit-valued map)", format!("Debug (alternate={}) of a Map<u32,(),4> holding {:?} is `{}`, expected the map rendering `{}`", alt, refs.iter().map(|x| *x.0).collect::<Vec<_>>(), got, want));
+        }
+    }
+    let mut z: Map<Z, (), 2> = Map::new();
+    if rng.chance(2, 3) {
+        z.insert(Z::new(), ());
+    }
+    let zr: Vec<(&Z, &())> = z.iter().collect();
+    for alt in [false, true] {
+        cx.rep.evaluations += 1;
+        let got = if alt { format!("{:#?}", z) } else { format!("{:?}", z) };
+        let want = if alt { format!("{:#?}", StdMap(&zr)) } else { format!("{:?}", StdMap(&zr)) };
+        if got != want {
+            ledger::violation("C19", "map-debug@fmt(unit-valued map)", format!("Debug (alternate={}) of a Map<Z,(),2> with {} entries is `{}`, expected `{}`", alt, zr.len(), got, want));
+        }
+    }
+    cx.rep.hit("fmt:unit-valued-map");
+    if ledger::viol_total() > 0 {
+        cx.rep.absorb_violations("C19", &|| vec![format!("unit-valued map rendering probe, history {}", hist)]);
+    }
+}
+
 pub fn required_rows(prop: &str) -> Vec<&'static str> {
     match prop {
         "C01" => vec!["insert", "insert_key_value", "checked_insert", "get_mut", "index", "index_mut", "remove", "remove_entry", "retain", "clear", "drain"],
@@ -2030,4 +2076,7 @@ pub fn history<F: Fam, const N: usize>(cx: &mut Ctx, hist: u64, mut rng: Rng, ma
     e.light = e.cx.args.flag("light");
     e.h.retag_unchecked = e.cx.prop == "C18";
     e.run_history::<F, N>(max_steps);
+    if prop == "C19" && hist % 16 == 0 {
+        unit_value_fmt_probe(cx, hist);
+    }
 }
